@@ -26,8 +26,8 @@ SHOW = 'c07_show'
 SHARD = 100
 RULE = ('ctx cases: random structured tables (1x1, rows with no crosses, ...) x {cxt, csv via a real file, json, '
         'pandas} x 3 back-ends, names from the admissible alphabet (unicode, inner spaces, digits, X, ., quotes) '
-        'plus a separate inadmissible stream (newline / separator / empty / leading white space in names, '
-        'white-space separators = finding D21); mv cases: tables mixing IntervalPS, IntervalNumpyPS, SetPS, '
+        'plus white-space separators (tab, blank: the repaired defect D57) and words with blanks, and a separate '
+        'inadmissible stream (newline / separator / empty / leading white space in names, equal words, separator in a word); mv cases: tables mixing IntervalPS, IntervalNumpyPS, SetPS, '
         'AttributePS with point cells, interval cells and empty sets; fc/pc cases: concepts built by from_objects '
         'with measures, plus non-canonical ones (is_extent with a permuted subset, foreign name orders); lat cases: '
         'lattices of formal contexts (plain and monotone) and of many-valued contexts (numpy path), incl. < 3 '
@@ -555,7 +555,8 @@ def bad_name(rng, fmt, sep):
 
 SEPS = [',', ',', ',', ';', '|', 'x', ':', '¦']
 WS_SEPS = ['\t', '\t', ' ', '\x0b', ' ']
-WORDS = [('True', 'False'), ('True', 'False'), ('1', '0'), ('X', ''), ('yes', 'no'), ('T', 'F'), ('да', 'нет')]
+WORDS = [('True', 'False'), ('True', 'False'), ('1', '0'), ('X', ''), ('yes', 'no'), ('T', 'F'), ('да', 'нет'),
+         ('is true', ' no '), ('\t+', '-\t')]
 
 
 def ctx_case(rng, tier, fmt=None, stream=None):
@@ -585,10 +586,12 @@ def ctx_case(rng, tier, fmt=None, stream=None):
     if stream == 'inadm' and fmt in ('cxt', 'csv'):
         r = rng.random()
         if fmt == 'csv' and r < 0.45:
-            case['sep'] = rng.choice(WS_SEPS)                    # finding D21 (names stay admissible)
+            case['sep'] = rng.choice(WS_SEPS)      # admissible since bd678e6 (D57): tab / blank separated files
             case['onames'] = names(rng, h, case['sep'] + sep, unique, 1)
             case['anames'] = names(rng, w, case['sep'] + sep, unique, 1)
-            case['stream'] = 'inadm-ws-sep'
+            if case['sep'] in case['wt'] + case['wf']:
+                case['wt'], case['wf'] = 'True', 'False'
+            case['stream'] = 'ws-sep'
         elif fmt == 'csv' and r < 0.55:
             case['wt'] = case['wf']
         elif fmt == 'csv' and r < 0.65:
